@@ -4,6 +4,9 @@
     names, the disassembler exits 0 only after its complete output, equal hashes mean equal binaries). *)
 From Coq Require Import List NArith Bool String.
 From Seccomp Require Import Profiler ProfilerProofs.
+From Gen Require Import GenAmbient.
+Import ListNotations.
+Open Scope string_scope.
 Import ListNotations.
 Open Scope N_scope.
 
@@ -75,3 +78,14 @@ Theorem C17_old_protocol_refuted_by_crash :
               x <> complete_dump dump_of (r_hash c).
 Proof. exact old_protocol_refuted_by_crash. Qed.
 Print Assumptions C17_old_protocol_refuted_by_crash.
+
+
+(* What a disassembly is complete FOR is the binary: the cache is keyed by the binary's path and content, and the model's
+   runs have no other parameter. That is sound as long as nothing else a caller can pass changes what the disassembler is
+   asked to print: the regenerated list of the flags the command registers is the documented one (a new flag - a symbol
+   filter, an architecture override - is an input the cache key and this model do not have; the check then runs the real
+   profiler with the new flag first and without it afterwards). *)
+Theorem C17_profiler_inputs_are_the_documented_flags :
+  map fst profiler_flags = ["allow"; "b"; "d"; "format"; "out"; "pkg"; "t"].
+Proof. vm_compute. reflexivity. Qed.
+Print Assumptions C17_profiler_inputs_are_the_documented_flags.
